@@ -389,7 +389,13 @@ func init() {
 		d := x.scalar(st, c.args[0])
 		return x.finish(st, fr, c, VScalar{App(SInt, "goquo", d, IntLit(1000000))})
 	})
-	reg("time.Now", "opaque", noop)
+	reg("time.Now", "an arbitrary instant; recorded as time_now (the spec builtin unixmilli(t) is t.UnixMilli())", func(x *Exec, st *State, fr *Frame, c *callCtx) bool {
+		v := x.symbolicResult(st, c)
+		if c.ret != nil {
+			st.rec = append(append([]recordedCall(nil), st.rec...), recordedCall{Name: "time_now", Args: []TV{{nil, c.ret.Type()}}, Results: []Value{v}})
+		}
+		return x.finish(st, fr, c, v)
+	})
 	reg("time.After", "a channel that delivers once the duration has elapsed: an open, non-nil channel", func(x *Exec, st *State, fr *Frame, c *callCtx) bool {
 		x.callCounter++
 		t := c.ret.Type()
